@@ -84,7 +84,7 @@ def funnel_cases(draw, tier="quick"):
     deco = lambda: (draw(st.sampled_from([b"", b"", b"/", b"./", b"//", b"././", b"/./"])), draw(st.sampled_from([b"/", b"/", b"//", b"/./", b"/.//"])),
                     draw(st.sampled_from([b"", b"", b"/", b"/.", b"//"])))
     return dict(nodes=nodes, deco_name={n["path"]: deco() for n in nodes}, deco_tgt={n["path"]: deco() for n in nodes if n["type"] == "hlink"},
-                what=draw(st.sampled_from(["tar_names", "tar_names", "tar_exclude", "pack_file", "pack_glob", "rd_path", "rd_path", "dotdot", "s2t_opts"])),
+                what=draw(st.sampled_from(["tar_names", "tar_names", "tar_exclude", "pack_file", "pack_glob", "sort_file", "rd_path", "rd_path", "dotdot", "s2t_opts"])),
                 s2t_root=draw(st.sampled_from([b"pre", b"pre/sub", b"x.y", b".hid"])), s2t_deco=deco(),
                 exclude=draw(st.sampled_from([b"skip/*", b"dir", b"*/sub", b"a*"])), ex_deco=deco(),
                 dd_where=draw(st.sampled_from(["name", "target", "arg"])), dd_style=draw(st.sampled_from([b"../", b"x/../", b"./../", b"x/.././"])))
@@ -200,6 +200,35 @@ def check_case(case, opts):
                 res_.append(r)
             both_images(res_[0], res_[1], o1, o2, "gensquashfs pack file paths / link targets")
             return CaseInfo(changed >= 1 and res_[0].rc == 0, ["pack_file"])
+        if what == "sort_file":
+            # the names in a sort file (gensquashfs -S): canonical, spelled otherwise, and spelled otherwise inside quotation marks
+            # ("if necessary" says the manual: wrapping a name that needs no quoting must not change what it names)
+            files_ = [n for n in nodes if n["type"] == "file"]
+            if not files_:
+                raise Inconclusive("no regular file")
+            ind = os.path.join(sc, "in")
+            os.mkdir(ind)
+            for n in files_:
+                with open(os.path.join(ind, hashlib.md5(n["path"]).hexdigest()), "wb") as fh:
+                    fh.write(n["data"] + hashlib.sha256(n["path"]).digest() * 40)     # distinct contents: the order shows in the image
+            lf = os.path.join(sc, "list.txt")
+            with open(lf, "wb") as fh:
+                fh.write(_pack(case, canon_names, {p_: b"/" + t_ for p_, t_ in canon_tgts.items()}))
+            outs_ = []
+            for k in range(4):
+                sf = os.path.join(sc, "sort%d.txt" % k)
+                with open(sf, "wb") as fh:
+                    for i, n in enumerate(files_):
+                        nm = [n["path"], sp_names[n["path"]], b'"' + sp_names[n["path"]] + b'"', n["path"]][k]
+                        fh.write(b"%d %s%s\n" % (-5 * (i + 1) if i % 2 == 0 else 7 + i, [b"", b"[dont_compress] ", b"[dont_fragment] "][i % 3], nm))
+                ok_ = os.path.join(sc, "s%d.sqfs" % k)
+                r = vcommon.run([gen, "-F", lf, "-D", sc, "-q", "-c", "gzip", "-b", "4096"] + (["-S", sf] if k < 3 else []) + [ok_], timeout=60)
+                judge(r, "gensquashfs")
+                outs_.append((r, ok_))
+            both_images(outs_[0][0], outs_[1][0], outs_[0][1], outs_[1][1], "gensquashfs sort file names (unquoted)")
+            both_images(outs_[0][0], outs_[2][0], outs_[0][1], outs_[2][1], "gensquashfs sort file names (same spelling in quotation marks)")
+            effect = outs_[0][0].rc == 0 and outs_[3][0].rc == 0 and open(outs_[0][1], "rb").read() != open(outs_[3][1], "rb").read()
+            return CaseInfo(effect and any(sp_names[n["path"]] != n["path"] for n in files_), ["sort_file"] + (["sort_file_changes_image"] if effect else []))
         if what == "pack_glob":
             # the target directory of a glob line, spelled two ways
             ind = os.path.join(sc, "in")
